@@ -145,9 +145,11 @@ class Conn:
         self.told[by] = True
         other = 'client' if by == 'server' else 'server'
         d = 's2c' if by == 'server' else 'c2s'
-        if by == 'client':
-            # the closing side stops reading too
-            pass
+        if by == 'server':
+            # a local close wakes the local reader (ASGI: the next receive()
+            # yields websocket.disconnect; simple-websocket: receive() raises
+            # ConnectionClosed)
+            self.to_server.put_nowait(CLOSED)
         if self.severed:
             return
         if lat is None:
